@@ -84,7 +84,10 @@ impl Builtin for GlobalBuiltin {
 impl GlobalBuiltin {
     #[inline]
     pub fn shout<T: fmt::Display>(value: T) {
-        println!("{value}");
+        // `println!` panics when stdout is gone (`naija x.ns | head -1`, a full disk).
+        // A reader that went away is not an error of the script.
+        use io::Write as _;
+        let _ = writeln!(io::stdout(), "{value}");
     }
 
     #[inline]
